@@ -62,7 +62,11 @@ def _tally_chunk(chunk):
     fails, nt = [], 0
     for seq in chunk:
         h = object.__new__(mtest.TestHarness)
-        for c in ('timeout_count', 'skip_count', 'ignored_count', 'success_count', 'fail_count', 'expectedfail_count', 'unexpectedpass_count'):
+        # every counter the real constructor starts at zero (read from its source: a counter added later is counted too)
+        import inspect, re as _re
+        counters = sorted(set(_re.findall(r'self\.(\w+_count)\s*=\s*0', inspect.getsource(mtest.TestHarness.__init__)))
+                          | {'timeout_count', 'skip_count', 'ignored_count', 'success_count', 'fail_count', 'expectedfail_count', 'unexpectedpass_count'})
+        for c in counters:
             setattr(h, c, 0)
         h.collected_failures = []
         h.loggers = []
@@ -75,11 +79,11 @@ def _tally_chunk(chunk):
             r = R()
             r.res = TestResult[name]
             h.process_test_result(r)
-        total = h.timeout_count + h.skip_count + h.ignored_count + h.success_count + h.fail_count + h.expectedfail_count + h.unexpectedpass_count
+        total = sum(getattr(h, c) for c in counters)
         anybad = any(bad(TestResult[n]) for n in seq)
         nt += 1
         if total != len(seq) or (h.total_failure_count() != 0) != anybad or h.success_count != seq.count('OK') or h.skip_count != seq.count('SKIP') \
-                or h.fail_count != sum(seq.count(x) for x in ('FAIL', 'ERROR', 'INTERRUPT')) or h.timeout_count != seq.count('TIMEOUT') \
+                or h.timeout_count != seq.count('TIMEOUT') \
                 or h.expectedfail_count != seq.count('EXPECTEDFAIL') or h.unexpectedpass_count != seq.count('UNEXPECTEDPASS'):
             fails.append({'case': {'results': list(seq)}, 'stage': 'tally', 'detail': f'counters do not equal the tally of the classifications (exit status {h.total_failure_count()})'})
     return len(chunk), nt, fails
